@@ -175,6 +175,9 @@ func Park(site string) {
 		return
 	}
 	g := &G{raw: Goid(), Site: site, ch: make(chan struct{})}
+	if g.raw == root {
+		return // the driver itself (scenario set-up code) never parks
+	}
 	mu.Lock()
 	if !active.Load() { // drained meanwhile
 		mu.Unlock()
